@@ -136,8 +136,50 @@ def h_repeatable(ctx, name):
         ctx.claim('default_cache_stays_empty', len(e1[0]) == 0 and len(e2[0]) == 0)
 
 
+def h_default_dicts(ctx, which):
+    """Optional dictionaries left at their defaults carry nothing over (reuses the C06 / C07 set-ups)."""
+    if which == 'cross':
+        from harness.c06 import h_default_info
+        h_default_info(ctx, [2, 2], 1)
+    else:
+        from harness.c07 import h_callback
+        h_callback(ctx, 2, 2, [[0, 0], [1, 1]])
+
+
+def h_concrete_seeded(ctx, case):
+    """Seeded routines the engine cannot encode (QR of randomly extended cores,
+    polynomial root finding): real code, same integer seed under different
+    global generator states and call histories."""
+    def runs(call):
+        np.random.seed(1)
+        a = _flat(call())
+        same = True
+        for gs in (2, 3):
+            _history(ctx)
+            np.random.seed(gs)
+            same = same and _identical(ctx, a, _flat(call()))
+        return same
+    Y = teneva.rand([4, 4, 4], 2, seed=1)
+    if case.startswith('cross_act'):
+        dr, dr2 = {'cross_act_0': (0, 0), 'cross_act_1': (1, 0), 'cross_act_2': (1, 1), 'cross_act_3': (2, 2)}[case]
+        X = [teneva.rand([4, 4, 4], 2, seed=2), teneva.rand([4, 4, 4], 1, seed=3)]
+        f = lambda x: x[:, 0] * x[:, 1] + 1.
+        call = lambda: teneva.cross_act(f, X, teneva.rand([4, 4, 4], 1, seed=4), nswp=2, dr=dr, dr2=dr2, seed=11)
+    elif case == 'core_qr_rand':
+        G = Y[1]
+        call = lambda: [teneva.core_qr_rand(G, 2, True, 5), teneva.core_qr_rand(G, 1, False, 5)]
+    elif case == 'sample_func':
+        A = teneva.func_int(teneva.rand([4, 4], 1, seed=6))
+        call = lambda: teneva.sample_func(A, seed=7)
+    ctx.claim('same_seed_same_result_any_global_state', runs(call))
+
+
 def instances(tier):
     out = []
+    for which in ('cross', 'als'):
+        out.append({'func': 'h_default_dicts', 'params': {'which': which}, 'opts': {'generic_divisors': True}})
+    for case in ('cross_act_0', 'cross_act_1', 'cross_act_2', 'cross_act_3', 'core_qr_rand', 'sample_func'):
+        out.append({'func': 'h_concrete_seeded', 'params': {'case': case}, 'opts': {'concrete_only': True}})
     for name in ['rand', 'rand_norm', 'rand_stab', 'sample', 'sample_lhs', 'sample_rand', 'sample_rand_poi',
                  'sample_tt', 'sample_square', 'sample_square_dup', 'anova']:
         out.append({'func': 'h_seeded', 'params': {'name': name}, 'opts': {'symbolic_signs': False}})
@@ -153,8 +195,8 @@ BOUNDS = {
              'in between; repeated calls of 13 deterministic functions',
     'thorough': 'same',
 }
-OUTSIDE = ('core_qr_rand, cross_act (QR of matrices extended by random columns: not encodable), sample_func (polynomial root '
-           'finder); bit-identity of float reductions is assumed for identical instruction streams; cross / als default info '
-           'dictionaries are covered in C06 / C07')
+OUTSIDE = ('core_qr_rand, cross_act (QR of matrices extended by random columns), sample_func (polynomial root finder) are not '
+           'encodable: they are run on the real code with fixed inputs only (concrete_only instances, not decided by the solver); '
+           'bit-identity of float reductions is assumed for identical instruction streams')
 ASSUMPTIONS = ['RNG audit: the stub generator records every draw with its stream; any use of the global numpy.random state '
                'raises in the model and is replayed on the real code under two different global seeds']
